@@ -173,10 +173,17 @@ def random_schedules(seed, n, big, concurrent, bnfail=False):
             kinds = KINDS if r.random() < 0.5 else r.sample(KINDS, r.randint(1, 2))
             epochs = sorted(r.sample(range(0, 10), r.randint(1, 3)))
         g = Gen(r, kinds, epochs, vals, pfail=r.choice([0.0, 0.0, 0.1, 0.25]))
-        g.steps.append({"ev": "Config", "asg": random_table(r, kinds, epochs, vals, 4)})
+        cfgstep = {"ev": "Config", "asg": random_table(r, kinds, epochs, vals, 4)}
+        setactive = r.random() < 0.5
+        if setactive:     # a node with an active validator set that changes (same size, another member / smaller / larger)
+            cfgstep["active"] = sorted(r.sample(vals, r.randint(1, len(vals))))
+        g.steps.append(cfgstep)
         L = r.randint(8, 40 if not big else 80)
         for _ in range(L):
             x = r.random()
+            if setactive and r.random() < 0.12:
+                pool = sorted(set(vals) | {9, 10})
+                g.steps.append({"ev": "SetActive", "idxs": sorted(r.sample(pool, r.randint(1, len(cfgstep["active"]) + 1)))})
             if concurrent and x < 0.3:
                 g.par()
                 continue
